@@ -10,7 +10,11 @@ DIFFS=${*:-$(ls /verif/benign/*.diff)}
 for d in $DIFFS; do
   S=/var/tmp/verif-benign-repo-$$; rm -rf "$S"; mkdir -p "$S"
   (cd /repo && git archive HEAD) | tar -x -C "$S"
-  (cd "$S" && git init -q . 2>/dev/null && git apply "$(readlink -f $d)") || { echo "$d PATCH-FAILED"; continue; }
+  if ! (cd "$S" && git init -q . 2>/dev/null && git apply "$(readlink -f $d)" 2>/dev/null); then
+    # written against the tree before the verification hooks went in: apply to that commit
+    rm -rf "$S"; mkdir -p "$S"; (cd /repo && git archive cce84f1) | tar -x -C "$S"
+    (cd "$S" && git init -q . 2>/dev/null && git apply "$(readlink -f $d)") || { echo "$d PATCH-FAILED"; continue; }
+  fi
   T=$(cd "$S" && PYTHONPATH="$S" /venv/bin/python -m pytest -q -p no:cacheprovider --timeout=900 --continue-on-collection-errors 2>&1 | tail -1)
   echo "== $(basename $d) suite: $T"
   for c in C01 C02 C03 C04 C05 C06 C07 C08 C09 C10 C11 C12 C13 C14 C15 C16 C17 C18 C19 C20; do
